@@ -7,5 +7,5 @@ Separate Extraction
   Cmd.arg_new Cmd.group_new Cmd.cmd_new Build.build_self Build.build_recursive Valid.valid
   Parser.parse_top Errors.all_kinds Errors.exit_code Errors.use_stderr Cmd.settings_none Cmd.settings_or PossibleValues.name_and_aliases
   DeriveModel.derive_cmd DeriveModel.derive_cmd_for_update DeriveModel.derived_parse DeriveModel.derived_update
-  DeriveModel.cmd_parse DeriveModel.extract DeriveModel.update DeriveModel.print DeriveModel.matches_of_print
+  DeriveModel.extract DeriveModel.update DeriveModel.print DeriveModel.matches_of_print
   DeriveModel.print_top DeriveModel.ve_from_str DeriveModel.lits DeriveModel.ve_to_possible_value.
